@@ -12,16 +12,16 @@ import (
 )
 
 const (
-	fnServeHTTP    = "(*" + pBastion + ".addHandler).ServeHTTP"
-	fnHandleUpdate = "(*" + pBastion + ".addHandler).handleUpdate"
-	fnParseBody    = pBastion + ".parseBody"
-	fnFeedBastion  = pBastion + ".FeedBastion"
-	fnConnect      = pBastion + ".connectAndServe"
-	cFeederUpdate  = "(" + pFeeder + ".Witness).Update"
+	fnServeHTTP      = "(*" + pBastion + ".addHandler).ServeHTTP"
+	fnHandleUpdate   = "(*" + pBastion + ".addHandler).handleUpdate"
+	fnParseBody      = pBastion + ".parseBody"
+	fnFeedBastion    = pBastion + ".FeedBastion"
+	fnConnect        = pBastion + ".connectAndServe"
+	cFeederUpdate    = "(" + pFeeder + ".Witness).Update"
 	cFeederGetLatest = "(" + pFeeder + ".Witness).GetLatestCheckpoint"
-	cWriteHeader   = "(net/http.ResponseWriter).WriteHeader"
-	cRWWrite       = "(net/http.ResponseWriter).Write"
-	cAllow         = "(*golang.org/x/time/rate.Limiter).Allow"
+	cWriteHeader     = "(net/http.ResponseWriter).WriteHeader"
+	cRWWrite         = "(net/http.ResponseWriter).Write"
+	cAllow           = "(*golang.org/x/time/rate.Limiter).Allow"
 )
 
 // outcome classes of Update, taken from its real path summaries
@@ -48,13 +48,12 @@ func updateOutcomes(a *updAnalysis) []updOutcome {
 }
 
 type huPath struct {
-	s       Summary
-	status  string // effective status constant
-	ct      *Term
-	body    *Term
-	errRet  *Term
+	s      Summary
+	status string // effective status constant
+	ct     *Term
+	body   *Term
+	errRet *Term
 }
-
 
 func constInt(t *Term) (string, bool) {
 	if t != nil && t.Kind == "const" {
@@ -64,18 +63,15 @@ func constInt(t *Term) (string, bool) {
 }
 
 var wantStatus = map[string]string{
-	"nil": "200",
-	pWitness + ".ErrUnknownLog":        "404",
-	pWitness + ".ErrNoValidSignature":  "403",
-	pWitness + ".ErrOldSizeInvalid":    "400",
-	pWitness + ".ErrCheckpointStale":   "409",
-	pWitness + ".ErrRootMismatch":      "409",
-	pWitness + ".ErrInvalidProof":      "422",
-	"other-error":                      "500",
+	"nil":                             "200",
+	pWitness + ".ErrUnknownLog":       "404",
+	pWitness + ".ErrNoValidSignature": "403",
+	pWitness + ".ErrOldSizeInvalid":   "400",
+	pWitness + ".ErrCheckpointStale":  "409",
+	pWitness + ".ErrRootMismatch":     "409",
+	pWitness + ".ErrInvalidProof":     "422",
+	"other-error":                     "500",
 }
-
-
-
 
 // ---------------------------------------------------------------- C11: parseBody
 
